@@ -676,7 +676,7 @@ impl ClusterHandler for NocHandler {
             // Same rule as for the other fabric-scoped writes (ACL, groups): the label is
             // stored before the command is answered, unless the fail-safe is armed for this
             // fabric - then `CommissioningComplete` stores it (or the expiry drops it).
-            if !state.failsafe.is_armed_for(fab_idx.get()) {
+            if !state.failsafe.defers_store_for(fab_idx.get()) {
                 persist.store(fabric)?;
             }
 
